@@ -308,3 +308,98 @@ Proof.
         rewrite !norm_vard_driver; cbn [negb andb];
         destruct (is_rec (d_vk q1)), (is_rec (d_vk q2)); cbn in H; try discriminate H; reflexivity.
 Qed.
+
+Lemma varn_scalar_vk : forall q, varn_scalar q = true -> is_rec (d_vk q) = false.
+Proof.
+  intros q H. unfold varn_scalar in H. rewrite !andb_true_iff in H. destruct H as [_ H].
+  destruct (d_vk q); [discriminate H | discriminate H | reflexivity].
+Qed.
+
+Lemma class_varn : forall c sh g r1 r2 isget q1 q2,
+  wf_local (LReq q1) = true -> wf_local (LReq q2) = true ->
+  sync_class c sh (A_varn isget) (LReq q1) = sync_class c sh (A_varn isget) (LReq q2) ->
+  norm (ctrace c sh (A_varn isget) g r1 (LReq q1)) = norm (ctrace c sh (A_varn isget) g r2 (LReq q2)).
+Proof.
+  intros c sh g r1 r2 isget q1 q2 W1 W2 H. unfold ctrace, exec.
+  destruct (multi c); [|reflexivity]. cbn [negb].
+  rewrite (fatal_disp sh _ q1 W1), (fatal_disp sh _ q2 W2).
+  cbn [sync_class] in H.
+  destruct (varn_scalar q1) eqn:S1, (varn_scalar q2) eqn:S2; try discriminate H.
+  - (* both take the put_var / get_var path *)
+    pose proof (varn_scalar_vk _ S1) as V1. pose proof (varn_scalar_vk _ S2) as V2.
+    destruct (c_safe c).
+    + destruct (g_min1 g =? 0); cbn [fst stop]; [|reflexivity].
+      rewrite !norm_app, !norm_getput_driver, V1, V2, !andb_false_r. reflexivity.
+    + destruct (fatal (state_err sh (negb isget))); [reflexivity|]. cbn [fst].
+      rewrite !norm_getput_driver, V1, V2, !andb_false_r. reflexivity.
+  - (* both take the varn path: iput/iget + wait *)
+    destruct (c_safe c).
+    + destruct (g_min1 g =? 0); cbn [fst stop]; [|reflexivity].
+      rewrite !norm_app, !norm_req_commit. reflexivity.
+    + destruct (fatal (state_err sh (negb isget))); [reflexivity|]. cbn [fst].
+      rewrite !norm_req_commit. reflexivity.
+Qed.
+
+Lemma fatal_wait : forall sh p w, wf_local (LWait w) = true ->
+  fatal (if state_err sh p =? 0 then w_err w else state_err sh p) = fatal (state_err sh p).
+Proof.
+  intros sh p w H. apply wf_wait_inv in H. destruct H as [_ [H _]].
+  destruct (state_err sh p =? 0) eqn:E; [|reflexivity].
+  apply Z.eqb_eq in E. rewrite E, H. reflexivity.
+Qed.
+
+Lemma class_mgetput : forall c sh g r1 r2 isget w1 w2,
+  wf_local (LWait w1) = true -> wf_local (LWait w2) = true ->
+  norm (ctrace c sh (A_mgetput isget) g r1 (LWait w1)) = norm (ctrace c sh (A_mgetput isget) g r2 (LWait w2)).
+Proof.
+  intros c sh g r1 r2 isget w1 w2 W1 W2. unfold ctrace, exec.
+  destruct (multi c); [|reflexivity]. cbn [negb].
+  rewrite (fatal_wait sh _ w1 W1), (fatal_wait sh _ w2 W2).
+  destruct (c_safe c).
+  - destruct (g_min1 g =? 0); cbn [fst stop]; [|reflexivity].
+    rewrite !norm_app, !norm_req_commit. reflexivity.
+  - destruct (fatal (state_err sh (negb isget))); [reflexivity|].
+    destruct ((if state_err sh (negb isget) =? 0 then w_err w1 else state_err sh (negb isget)) =? 0),
+             ((if state_err sh (negb isget) =? 0 then w_err w2 else state_err sh (negb isget)) =? 0);
+      cbn [fst]; rewrite !norm_req_commit; reflexivity.
+Qed.
+
+Lemma class_wait_all : forall c sh g r1 r2 w1 w2,
+  norm (ctrace c sh A_wait_all g r1 (LWait w1)) = norm (ctrace c sh A_wait_all g r2 (LWait w2)).
+Proof.
+  intros. unfold ctrace, exec. destruct (multi c); [|reflexivity]. cbn [negb].
+  destruct (s_mode sh); cbn [fst stop]; try reflexivity. rewrite !norm_req_commit. reflexivity.
+Qed.
+
+Lemma class_fill : forall c sh g r1 r2 f1 f2,
+  sync_class c sh A_fill_var_rec (LFill f1) = sync_class c sh A_fill_var_rec (LFill f2) ->
+  norm (ctrace c sh A_fill_var_rec g r1 (LFill f1)) = norm (ctrace c sh A_fill_var_rec g r2 (LFill f2)).
+Proof.
+  intros c sh g r1 r2 f1 f2 H. unfold ctrace, exec. destruct (multi c); [|reflexivity]. cbn [negb].
+  cbn [sync_class] in H.
+  destruct (c_safe c).
+  - destruct (g_min1 g =? 0); cbn [fst stop]; [|reflexivity].
+    destruct (g_min3 g =? 0); cbn [fst]; [|reflexivity].
+    rewrite !norm_app. f_equal. f_equal. destruct (grow sh g); [apply root_write_numrecs|reflexivity].
+  - destruct (f_global f1 || negb (f_valid f1)) eqn:A1, (f_global f2 || negb (f_valid f2)) eqn:A2; cbn [orb] in H; cbn [fst];
+      destruct (fill_drv_err f1 =? 0) eqn:B1, (fill_drv_err f2 =? 0) eqn:B2; cbn in H; try discriminate H; cbn [fst stop]; try reflexivity.
+    rewrite !norm_app. f_equal. destruct (grow sh g); [apply root_write_numrecs|reflexivity].
+Qed.
+
+Lemma repl_nil : forall (A : Type) n, @repl A n [] = [].
+Proof. induction n; cbn; auto. Qed.
+
+Definition meta_hdr (c : cfg) (sh : shared) (md : metadesc) (r : bool) : trace :=
+  match s_mode sh with MDefine => [] | _ => if md_header md then write_header c sh r else [] end.
+
+Lemma root_meta_hdr : forall c sh md r1 r2, norm (meta_hdr c sh md r1) = norm (meta_hdr c sh md r2).
+Proof. intros; unfold meta_hdr. destruct (s_mode sh), (md_header md); try reflexivity; apply root_write_header. Qed.
+
+Lemma meta_hdr_nonglobal : forall c sh md r,
+  c_safe c = false -> meta_hdr_global c sh md = false -> norm (meta_hdr c sh md r) = [].
+Proof.
+  intros c sh md r S H. unfold meta_hdr, meta_hdr_global in *. unfold write_header. rewrite S.
+  destruct (s_mode sh), (md_header md), (c_hcoll c); cbn in H; try discriminate H; try reflexivity;
+    rewrite app_nil_r, norm_rep; cbn; destruct r; cbn; apply repl_nil.
+Qed.
+
